@@ -33,6 +33,10 @@ CHECKS = {
    text="deg2dms / dms_tuple / ra_tuple: integer degrees in [0,360) (hours [0,24)), integer minutes in [0,60), seconds in [0,60), sign +-1 and exact recomposition, proved for every input k/2^30; dms_str / ra_str for n_dec in {-1,0,1,2,3,6,9,12}, both styles: on every return path the format template is one of the documented shapes, the minutes and seconds arguments are below 60 after the rounding carry, only the leading non-zero field carries the sign, and the shown fields equal the value rounded at the requested decimal modulo 360 degrees / 24 h (2233 obligations, z3).",
    note="R-mode; round(s, n) is an assumed builtin contract; the character strings themselves (float repr, exponent notation) are checked by a bounded parse-back of the real output (99000 / 9.9e6 strings near field boundaries).",
    technique="contract-based deductive verification (AST VCs + z3) with the format string kept as template + arguments; bounded parse-back", ref="DESIGN.md §3 C04"),
+ "C05": dict(category="proof",
+   text="Each of the six conversions is proved to be the documented rotation: the atan2/asin arguments produced by symbolic execution of the real function equal rho*(Mv)_y, rho*(Mv)_x, (Mv)_z for M = rot_x(+-eps), rot_y(90-phi) or the galactic matrix (exact polynomial identities modulo sin^2+cos^2=1, ring normaliser), clamping never changes the asin argument, the returned Angles are those atan2/asin values (mod 360) in their documented ranges, a generic lemma recovers the unit vector from (atan2, asin), and back*forward = I, M^T M = I for every obliquity / latitude (so pairs are mutually inverse and preserve the angle between any two directions). angular_separation: sin^2(theta/2) = (1 - v1.v2)/2 with sum-of-squares certificates for the domain, symmetric, in [0,180]; relative_position_angle: atan2 arguments are the east/north components, antisymmetric east component; circle_diameter: a <= d <= 2a/sqrt(3) for every triangle (z3 NRA) plus an AST shape check of the two formulas.",
+   note="R-mode; sin/cos/asin/atan2/sqrt are uninterpreted with axiom packs of true facts (listed in evidence); Angle.reduce_deg is used through its C03 contract. The 1e-9 degree clause in binary64 incl. poles, seam, antipodal and nearly coincident pairs is a bounded stand-in (Fibonacci sphere 2e3/1e5 directions). One genuine defect (math domain error next to a pole) found by the bounded sweep and repaired.",
+   technique="contract-based deductive verification: AST symbolic execution + exact ring normaliser (sympy) for trig identities + z3 for ranges/lemmas; bounded run-time contracts for binary64", ref="DESIGN.md §3 C05"),
 }
 NA_REASON = "check not built yet (work in progress; DESIGN.md has the plan)"
 
